@@ -182,6 +182,11 @@ def check_parser(rep, repo):
         rep.ev("PARSE-order", rets[0], all(r.seq < rets[0].seq for r in raises), "the check must precede the return")
 
 
+def facts_guards_own(e, li):
+    from ..ir import facts as _f
+    return [g for g in _f(e.guards) if g not in _f(li.guards)]
+
+
 def converter_facts(repo, name):
     fi = repo.need_function(CONV, name)
     w = Walker(repo, fi, inline=inline_same_module_private(fi))
@@ -216,6 +221,21 @@ def converter_facts(repo, name):
     facts["row"] = app[0].args[0] if len(app) == 1 else None
     sv = [e for e in w.events if e.kind == "call" and e.name in ("numpy.savetxt", "json.dump")]
     facts["writer"] = sv[0] if len(sv) == 1 else None
+    if facts["row"] is None and rec[0].loops:
+        # rows placed by position into a list allocated with one slot per sample: `rows = [None] * n; rows[i] = T` with i
+        # the counter of the record loop over range(n) - the same list as the one built by appending T, n times
+        li_r = w.loops[rec[0].loops[-1]]
+        dom_r = li_r.domain
+        st = [e for e in w.events if e.kind == "store" and e.loops == rec[0].loops and e.target[0] == "idx" and not e.aug
+              and e.target[2] == ("iter", dom_r, li_r.lid)]
+        if len(st) == 1 and dom_r is not None and dom_r[0] == "call" and dom_r[1] == ("builtin", "range") and len(dom_r[2]) == 1:
+            L = st[0].target[1]
+            n_t = dom_r[2][0]
+            slot = lambda t: t[0] == "alloc" and t[1] == "list" and len(t[2]) == 1
+            if L[0] == "bin" and L[1] == "*" and ((slot(L[2]) and L[3] == n_t) or (slot(L[3]) and L[2] == n_t)) \
+                    and not facts_guards_own(st[0], li_r):
+                facts["row"] = st[0].value
+                facts["rows_list"] = L
     if facts["row"] is None and sv:
         # comprehension form: the written object is (or contains under "data") a list comprehension of rows
         obj = sv[0].args[1] if sv[0].name == "numpy.savetxt" and len(sv[0].args) > 1 else (sv[0].args[0] if sv[0].args else None)
@@ -327,6 +347,10 @@ def check_converters(rep, repo):
             okw = wr is not None and wr.name == "numpy.savetxt" and dict(wr.kwargs).get("delimiter") == ("const", delim) \
                 and set(dict(wr.kwargs)) <= {"delimiter"}
             f["delimiter"] = dict(wr.kwargs).get("delimiter") if wr is not None else None
+            if okw and f.get("rows_list") is not None:
+                # ... and what it writes is the list the rows were placed in
+                from ..ir import subterms
+                okw = len(wr.args) > 1 and any(u == f["rows_list"] for u in subterms(wr.args[1]))
         rep.fn("CONV-row", fi, "each sample is written as (id, label - 1, features...)", bool(okrow),
                f"row is '{show(row)[:160] if row else '?'}'")
         rep.fn("CONV-writer", fi, "the writer uses the extension's delimiter / the 'data' key and no lossy format", bool(okw),
@@ -430,6 +454,9 @@ def _check(chk, repo):
         for fi in repo.module(modname).functions.values():
             rep.fn("STREAM-undecorated", fi, f"{fi.name} is a plain function", not fi.decorators,
                    f"{fi.name} is wrapped by {fi.decorators}: cached or altered results are not a function of the file / arguments")
+    # a file's content is a function of the file converted: no container shared between calls (mutable defaults)
+    from ..rules_premise import check_mutable_defaults
+    check_mutable_defaults(rep, repo, "STREAM-")
     chk.floor("converters analysed", 3, 3)
     chk.undecided.append("float32 exactness of the text/JSON round trip (np.savetxt '%.18e' and json repr are exact; library behaviour)")
     chk.assumptions.append("np.random.permutation after np.random.seed(s) is a deterministic function of s")
